@@ -105,6 +105,15 @@ pub fn violation_of(r: &MiriRun, o: &MiriOutcome) -> Option<Violation> {
 /// into an extra phase. The first run is executed alone so that the Miri build is warm.
 pub fn miri_phase(name: &str, root: &PathBuf, runs: Vec<MiriRun>, jobs: usize) -> ExtraPhase {
     let mut ph = ExtraPhase { name: name.to_string(), ..Default::default() };
+    // development aids: BPSIM_MIRI_FILTER=<substring of the scenario argv>, BPSIM_MIRI_MAX=<n>
+    let mut runs = runs;
+    if let Ok(f) = std::env::var("BPSIM_MIRI_FILTER") {
+        runs.retain(|r| r.args.iter().take(4).cloned().collect::<Vec<_>>().join(" ").contains(&f));
+    }
+    if let Some(n) = std::env::var("BPSIM_MIRI_MAX").ok().and_then(|s| s.parse::<usize>().ok()) {
+        runs.truncate(n);
+    }
+    let verbose = std::env::var("BPSIM_MIRI_VERBOSE").is_ok();
     if runs.is_empty() {
         return ph;
     }
@@ -124,6 +133,9 @@ pub fn miri_phase(name: &str, root: &PathBuf, runs: Vec<MiriRun>, jobs: usize) -
                     break;
                 }
                 let o = run_miri(root, &runs[i]);
+                if verbose {
+                    eprintln!("miri run {} {:?} seed {} rate {} -> {:?}", i, runs[i].args.iter().take(4).collect::<Vec<_>>(), runs[i].seed, runs[i].preemption_rate, o);
+                }
                 results.lock().unwrap().push((i, o));
             });
         }
